@@ -452,7 +452,7 @@ def _verify_body(eng, contract, target, mod, cname, node, res, seed, timeout_ms,
     res.paths = len(outs)
     if os.environ.get('PYVC_DEBUG_OUTS'):
         for o in outs:
-            print('OUT', o.kind, getattr(o.val, 'cls', o.val), len(o.ctx.pc), file=sys.stderr)
+            print('OUT', o.kind, getattr(o.val, 'cls', o.val), len(o.ctx.pc), sorted(set(n[1].split('.')[-1] for n in o.ctx.notes if n[0] == 'called')), file=sys.stderr)
     eng.stats['paths'] = len(outs)
     if not outs:
         raise Unsupported('no feasible path through the function')
